@@ -532,6 +532,95 @@ func init() {
 					}
 					return true
 				})
+				// `not exceeded` is answered only by the limit: every constant `return false` lies behind the limit
+				// being off (limit < 0) or behind !(evalNesting > limit) with the limit derived from MaxEvalNesting —
+				// never behind a comparison with something else (a high-water mark, a cached verdict), which lets a
+				// depth the limit refuses through
+				{
+					einfo := epkg.TypesInfo
+					maxFld := c.LookupField("lisp.Runtime.MaxEvalNesting")
+					isLimit := func(e ast.Expr) bool {
+						if maxFld != nil && FieldOfSelector(einfo, e) == maxFld {
+							return true
+						}
+						o := identObj(einfo, e)
+						if o == nil {
+							return false
+						}
+						derived := false
+						ast.Inspect(efd.Body, func(n ast.Node) bool {
+							as, ok := n.(*ast.AssignStmt)
+							if !ok || len(as.Lhs) != len(as.Rhs) {
+								return true
+							}
+							for i, l := range as.Lhs {
+								if identObj(einfo, l) == o && maxFld != nil && FieldOfSelector(einfo, as.Rhs[i]) == maxFld {
+									derived = true
+								}
+							}
+							return true
+						})
+						return derived
+					}
+					cls := func(e ast.Expr) (string, bool) {
+						be, ok := ast.Unparen(e).(*ast.BinaryExpr)
+						if !ok {
+							return "", false
+						}
+						if isLimit(be.X) {
+							if k, ok := intConst(einfo, be.Y); ok && k == 0 {
+								switch be.Op {
+								case token.LSS:
+									return "neg", false
+								case token.GEQ:
+									return "neg", true
+								}
+							}
+						}
+						nx, ny := FieldOfSelector(einfo, be.X) == nest, FieldOfSelector(einfo, be.Y) == nest
+						switch {
+						case nx && isLimit(be.Y):
+							switch be.Op {
+							case token.GTR:
+								return "gt", false
+							case token.LEQ:
+								return "gt", true
+							}
+						case ny && isLimit(be.X):
+							switch be.Op {
+							case token.LSS:
+								return "gt", false
+							case token.GEQ:
+								return "gt", true
+							}
+						}
+						return "", false
+					}
+					efc := c.cfgOf(eu, nil)
+					cut := efc.edgesEntailing(cls, func(v map[string]bool) bool { return v["neg"] || (v["$has:gt"] && !v["gt"]) })
+					okFalse := true
+					var at ast.Node = efd
+					for _, b := range efc.G.Blocks {
+						if !efc.Live(b) {
+							continue
+						}
+						for _, n := range b.Nodes {
+							rs, isRet := n.(*ast.ReturnStmt)
+							if !isRet || len(rs.Results) != 1 || !isBoolConst(einfo, rs.Results[0], false) {
+								continue
+							}
+							if len(cut) == 0 || efc.reachableAvoiding(b, cut) {
+								okFalse = false
+								at = rs
+							}
+						}
+					}
+					if okFalse {
+						obs = append(obs, mkOb(c, "HEIGHT.nesting-check", eu, "not exceeded only by the limit", efd, Proved, "every `return false` lies behind `limit < 0` or behind !(evalNesting > limit)", true))
+					} else {
+						obs = append(obs, mkOb(c, "HEIGHT.nesting-check", eu, "not exceeded only by the limit", at, Violated, "evalNestingExceeded can answer `not exceeded` on evidence other than the limit (a comparison with a recorded peak, a cached verdict): a depth the limit refuses is admitted — each refusal raises the effective limit by one", true))
+					}
+				}
 				if okCmp && !badCmp {
 					obs = append(obs, mkOb(c, "HEIGHT.nesting-check", eu, "evalNesting > limit", efd, Proved, "nesting (already incremented for this frame) is compared with `>`: depth never exceeds the limit", false))
 				} else {
